@@ -339,6 +339,66 @@ def _validate_unchanged_deferred(tree):
     return flag == "True"
 
 
+ENV_SOURCE_CODES = {"self.base_env.get(name)": 1, "os.getenv(name)": 2, "os.environ.get(name)": 2}
+
+
+def _digest_env_source(tree, fn_name):
+    """Which mapping provides the values of the tracked variables in the input digest computed by `fn_name`
+    (Executor._compute_inp_step_hash: the digest of the skip / validate check and STEPUP_STEP_INP_DIGEST;
+    Executor._compute_full_step_hash: the digest stored after a run): 1 = Executor.base_env, 2 = os.environ."""
+    fn = find_function(tree, fn_name, "Executor")
+    calls = [n for n in ast.walk(fn) if isinstance(n, ast.Call) and ast.unparse(n.func) == "StepHash.from_inp"]
+    if len(calls) != 1 or len(calls[0].args) != 3:
+        raise TranslatorError(f"{fn_name}: expected exactly one StepHash.from_inp(label, hashes, env_values, ...)")
+    arg = calls[0].args[2]
+    if not (isinstance(arg, ast.DictComp) and ast.unparse(arg.key) == "name" and len(arg.generators) == 1
+            and ast.unparse(arg.generators[0].target) == "name" and ast.unparse(arg.generators[0].iter) == "env_deps"
+            and not arg.generators[0].ifs):
+        raise TranslatorError(f"{fn_name}: env_values is not {{name: <source>(name) for name in env_deps}}: "
+                              f"{ast.unparse(arg)[:80]}")
+    src = ast.unparse(arg.value)
+    if src not in ENV_SOURCE_CODES:
+        raise TranslatorError(f"{fn_name}: unknown source of the tracked variables' values: {src}")
+    kw = {k.arg: ast.unparse(k.value) for k in calls[0].keywords}
+    if kw.get("env_overrides") != "env_overrides" or kw.get("shell") != "shell":
+        raise TranslatorError(f"{fn_name}: shell / env_overrides ingredients of the digest not recognised: {kw}")
+    return ENV_SOURCE_CODES[src]
+
+
+def _base_env_facts(tree):
+    """Executor.base_env = {**os.environ, **self.infra_env} (cached); Executor._run_command starts the child's
+    environment from dict(self.base_env), applies the step's overrides, then sets exactly the reserved names."""
+    fn = find_function(tree, "base_env", "Executor")
+    assigns = [n for n in ast.walk(fn) if isinstance(n, ast.Assign)]
+    if len(assigns) != 1 or ast.unparse(assigns[0].value) != "{**os.environ, **self.infra_env}":
+        raise TranslatorError("Executor.base_env: not os.environ overlaid with infra_env")
+    rets = [n for n in ast.walk(fn) if isinstance(n, ast.Return)]
+    if len(rets) != 1 or ast.unparse(rets[0].value) != ast.unparse(assigns[0].targets[0]):
+        raise TranslatorError("Executor.base_env: return value not recognised")
+    run = find_function(tree, "_run_command", "Executor")
+    body = body_without_docstring(run)
+    env_stmts = [ast.unparse(s) for s in body if "env" in ast.unparse(s).split("=")[0] or ast.unparse(s).startswith("env.")]
+    env_stmts = [s for s in env_stmts if s.startswith("env")]
+    if not env_stmts or env_stmts[0] != "env = dict(self.base_env)":
+        raise TranslatorError(f"_run_command: the child's environment does not start from base_env: {env_stmts[:1]}")
+    if len(env_stmts) < 2 or env_stmts[1] != "env.update(env_overrides)":
+        raise TranslatorError("_run_command: the step's overrides are not applied right after base_env")
+    keys = []
+    for s in env_stmts[2:]:
+        m = re.fullmatch(r"env\['([A-Z_]+)'\] = .*", s, re.S)
+        if not m:
+            raise TranslatorError(f"_run_command: unrecognised statement on the child's environment: {s[:60]}")
+        keys.append(m.group(1))
+    stepmod = _import_repo("stepup.core.step")
+    if sorted(keys) != sorted(stepmod.RESERVED_ENV_VARS):
+        raise TranslatorError(f"_run_command: variables set for the child {sorted(keys)} differ from "
+                              f"RESERVED_ENV_VARS {sorted(stepmod.RESERVED_ENV_VARS)}")
+    launch = [n for n in ast.walk(run) if isinstance(n, ast.Call) and ast.unparse(n.func) == "launch_command"]
+    if len(launch) != 1 or {k.arg: ast.unparse(k.value) for k in launch[0].keywords}.get("env") != "env":
+        raise TranslatorError("_run_command: launch_command is not given the environment built above")
+    return 1
+
+
 def _startup_sequence(tree):
     fn = find_function(tree, "resume_from_db")
     seq = []
@@ -392,6 +452,9 @@ def generate(check=True):
     if drops_stale != (keep_states is not None):
         raise TranslatorError("_run_hash_job / _is_stale_confirmation: inconsistent shapes")
     validate_deferred = _validate_unchanged_deferred(ex_tree)
+    inp_env_src = _digest_env_source(ex_tree, "_compute_inp_step_hash")
+    full_env_src = _digest_env_source(ex_tree, "_compute_full_step_hash")
+    cmd_env_src = _base_env_facts(ex_tree)
     st_tree = parse_module("stepup/core/startup.py")
     env_stores = _env_rescan_facts(st_tree)
     excluded, confirm_state = _rescan_files_facts(st_tree)
@@ -429,7 +492,7 @@ def generate(check=True):
         raise TranslatorError(f"_is_stale_confirmation: unknown FileState {e}") from e
     facts.update(rule=rule, rescan_excluded=excluded, confirm_state=confirm_state, startup=seq,
                  transitions=len(table), env_stores=env_stores, drops_stale=drops_stale,
-                 validate_deferred=validate_deferred)
+                 validate_deferred=validate_deferred, env_sources=(inp_env_src, full_env_src, cmd_env_src))
     out = [
         "(* GENERATED by translator/gen_noop.py from stepup/core/{executor,startup,workflow,enums}.py. Do not edit. *)",
         "From Coq Require Import List NArith Bool.",
@@ -455,6 +518,15 @@ def generate(check=True):
         "(* Executor.validate_dynamic_job, inputs unchanged: the step goes back to PENDING with this",
         "   deferred flag (true since fix d760e3e) *)",
         f"Definition gen_validate_unchanged_deferred : bool := {'true' if validate_deferred else 'false'}.",
+        "",
+        "(* Which mapping provides the values of a step's tracked environment variables: 1 = Executor.base_env",
+        "   (os.environ overlaid with the director's infra_env), 2 = os.environ.",
+        "   check: Executor._compute_inp_step_hash (skip check, validate check, STEPUP_STEP_INP_DIGEST);",
+        "   stored: Executor._compute_full_step_hash (the hash stored after a run);",
+        "   command: what Executor._run_command hands to the child before overrides and reserved names *)",
+        f"Definition gen_digest_env_source_check : N := {inp_env_src}.",
+        f"Definition gen_digest_env_source_stored : N := {full_env_src}.",
+        f"Definition gen_command_env_source : N := {cmd_env_src}.",
         "",
         "(* startup.resume_from_db: 1 reset_interrupted_steps, 2 watch_known_dirs, 3 rescan_env_vars,",
         "   4 rescan_files, 5 rescan_nglobs *)",
